@@ -218,15 +218,16 @@ def check(run, ctx):
                 else:
                     run.ok(B8, f"{f.name}:{norm(n)[:30]}", "read from the member itself")
     run.require(n_b8 >= 1, "B8: no message builder reading member fields found in stringly_typed.violation_generator")
-    B9 = run.rule("B9", "the name quoted for a TypeScript function value (arrow function / function expression) is read from the node it is the direct initialiser of: the variable_declarator consulted is `<node>.parent`, not something found by climbing", floor=2,
+    B9 = run.rule("B9", "the name quoted for a TypeScript function value (arrow function / function expression) is read from the node it is the direct initialiser of: the variable_declarator consulted is `<node>.parent`, not something found by climbing", floor=1,
                   decides="a callback that is merely an argument inside an initialiser (`const total = xs.map((x) => {...})`) is not reported under the variable's name at the callback's line")
     from .. import inline
     repo = ctx.repo
     ext = [f for f in repo.funcs_in("src.linters.nesting.typescript_function_extractor.") if f.parent is None and len(f.node.args.args) >= 2
            and any(isinstance(c, ast.Constant) and c.value == "variable_declarator" for c in ast.walk(f.node))]
-    run.require(len(ext) >= 2, f"B9: only {len(ext)} name extractors consult a variable_declarator")
+    run.require(len(ext) >= 1, "B9: no name extractor consults a variable_declarator")
     for f in ext:
-        npar = f.node.args.args[1].arg
+        pars = {a.arg for a in f.node.args.args} - {"self", "cls"}
+        npar = next((a.value.value.id for a in ast.walk(f.node) if isinstance(a, ast.Assign) and isinstance(a.value, ast.Attribute) and a.value.attr == "parent" and isinstance(a.value.value, ast.Name) and a.value.value.id in pars), f.node.args.args[1].arg)
         cmp_vars = {n.left.value.id for n in ast.walk(f.node) if isinstance(n, ast.Compare) and isinstance(n.left, ast.Attribute) and n.left.attr == "type" and isinstance(n.left.value, ast.Name)
                     and any(isinstance(c, ast.Constant) and c.value == "variable_declarator" for c in n.comparators)}
         bad = None
